@@ -185,7 +185,12 @@ def safe_evaluate(mod, case, st: Stats) -> tuple[list[Failure], str | None]:
     # repeating timer: a single SIGALRM can be swallowed when it fires inside a gc callback / __del__
     signal.setitimer(signal.ITIMER_REAL, CASE_WALL_S, 2.0)
     try:
-        res = mod.evaluate(case, st) or []
+        from vf.cut import harness_stack
+
+        # the harness's own recursive code (renderer, parser, models) gets a deep stack; calls into the code under test
+        # go through vf.cut, which gives it the stack a plain caller would have
+        with harness_stack():
+            res = mod.evaluate(case, st) or []
         return list(res), None
     except HarnessTimeout:
         st.timeouts += 1
